@@ -41,6 +41,7 @@ rcv_ctx = dict(
         (r'op_\.error_\.emplace\([^;]*\);', 'EV_store_error(self);'),
         (r'op_\.stopSource_\.stop_requested\(\)', 'EV_children_stop_requested(self->op_)'),
         (r'op_\.stopSource_\.request_stop\(\)', 'EV_stop_children(self->op_)'),
+        (r'op_\.error_\.has_value\(\)', 'EV_error_has_value(self->op_)'),   # not consulted by the pinned element receivers: lets a variant that does compile
         (r'\bop_\.', 'op_->'),
     ],
 )
